@@ -247,6 +247,7 @@ pub fn install_panic_hook() {
         let msg = format!("{}", info);
         let quiet = IN_SUBJECT.with(|c| c.get());
         LAST_PANIC.with(|p| *p.borrow_mut() = msg);
+        crate::sched::on_thread_panic();
         if !quiet {
             default(info);
         }
